@@ -154,6 +154,10 @@ def check(plan):
                 if ln.get("kind") == "scrub" and o["pwd"]:
                     continue
                 toks = extract(ln, out, plan["secrets"], collapse)
+                for seg, tok in (toks or []):
+                    if seg[0] == "k4" and tok != seg[1]:
+                        V.append({"prop": "C12", "tag": "kept-token-changed",
+                                  "detail": "layout %d: %r (netmask-shaped or preserved) came out as %r in %r" % (li, seg[1], tok, out[:120])})
                 if toks is None:
                     V.append({"prop": "C12", "tag": "context-changed",
                               "detail": "layout %d: non-sensitive text of %r was not carried over: %r (features %s)" % (li, src, out, _feat(o))})
